@@ -23,6 +23,7 @@ const prelude = `
 (declare-const ref_nil Ref)
 (declare-const err_nil Err)
 (declare-fun err_wraps (Err Err) Bool)
+(assert (forall ((e Err)) (! (not (err_wraps err_nil e)) :pattern ((err_wraps err_nil e)))))
 (declare-fun slen (Str) Int)
 (declare-fun sarr (Str) (Array Int Int))
 (declare-fun snil (Str) Bool)
